@@ -220,6 +220,14 @@ def process_all(progs: list[dict], opts: dict, nproc: int = NCPU) -> list[dict]:
 # --------------------------------------------------------------------------
 # TLC over batches of instances
 
+def _tmpfile(name: str) -> str:
+    """A path in the scratch directory (re-created if something outside this
+    process removed it during a long run)."""
+    d = scratch()
+    os.makedirs(d, exist_ok=True)
+    return os.path.join(d, name)
+
+
 # the TLC runs here are many and short: C1-only JIT and few GC threads cut
 # their CPU time to a third (measured), which matters when 16 JVMs run at once
 JVM = {"JAVA_TOOL_OPTIONS": "-XX:TieredStopAtLevel=1 -XX:ParallelGCThreads=2"}
@@ -241,7 +249,7 @@ def model_check(insts: list[dict], cfg: str = "DistExec.cfg", timeout: float = 1
     chunks = [c for c in chunks if c]
     files = []
     for i, c in enumerate(chunks):
-        p = os.path.join(scratch(), f"dx_{os.getpid()}_{time.time_ns()}_{i}.json")
+        p = _tmpfile(f"dx_{os.getpid()}_{time.time_ns()}_{i}.json")
         with open(p, "w") as f:
             json.dump(c, f)
         files.append(p)
@@ -257,7 +265,7 @@ def model_check(insts: list[dict], cfg: str = "DistExec.cfg", timeout: float = 1
     nst = ntr = 0
     for p, c, res in zip(files, chunks, results):
         if res.error or res.violated or res.deadlock:
-            keep = os.path.join(scratch(), "failed_distexec.json")
+            keep = _tmpfile("failed_distexec.json")
             os.replace(p, keep)
             raise MachineryError(f"DistExec ({cfg}) failed on a batch (kept at {keep}): "
                                  f"{res.error or res.violated}\n{res.out[-2500:]}")
@@ -290,7 +298,7 @@ def counterexample(inst: dict, timeout: float = 300, cap: int = 4) -> str:
     _ncex[0] += 1
     if _ncex[0] > cap:
         return "(counterexample not generated: cap reached; replay the file to get it)"
-    p = os.path.join(scratch(), f"dx1_{os.getpid()}_{time.time_ns()}.json")
+    p = _tmpfile(f"dx1_{os.getpid()}_{time.time_ns()}.json")
     one = dict(inst)
     one.pop("dump", None)
     with open(p, "w") as f:
@@ -310,7 +318,7 @@ def liveness(insts: list[dict], timeout: float = 1500, shards: int | None = None
     chunks = [c for c in (insts[i::shards] for i in range(shards)) if c]
     files = []
     for i, c in enumerate(chunks):
-        p = os.path.join(scratch(), f"dl_{os.getpid()}_{time.time_ns()}_{i}.json")
+        p = _tmpfile(f"dl_{os.getpid()}_{time.time_ns()}_{i}.json")
         with open(p, "w") as f:
             json.dump([{k: v for k, v in x.items() if k != "dump"} for x in c], f)
         files.append(p)
